@@ -88,8 +88,9 @@ func (s *FuncSpec) groups() []string {
 }
 
 type LoopSpec struct {
-	Inv []*Clause
-	Dec *Clause
+	Inv   []*Clause
+	Dec   *Clause
+	Never bool // `loop N never`: the loop body is unreachable (obligation); no havoc, no invariant
 }
 
 type LetDef struct {
@@ -344,6 +345,15 @@ func parseContractFile(path string, pkgPath string, ps *PkgSpec) error {
 					return fail(l, "loop ordinal: %v", err)
 				}
 				sub := strings.TrimSpace(strings.TrimPrefix(strings.TrimSpace(rest), fields[1]))
+				if sub == "never" {
+					ls := cur.Loops[n]
+					if ls == nil {
+						ls = &LoopSpec{}
+						cur.Loops[n] = ls
+					}
+					ls.Never = true
+					continue
+				}
 				m := clauseRe.FindStringSubmatch(sub)
 				if m == nil {
 					return fail(l, "bad loop clause %q", sub)
